@@ -174,6 +174,15 @@ pub struct FdtFileSummary {
     pub content_encoding: Option<String>,
     /// a `Content-MD5` attribute is present
     pub has_md5: bool,
+    /// `File::content_length`
+    pub content_length: Option<u64>,
+    /// `File::content_encoding` mapped to `Cenc` as `attach_fdt` does (absent / unknown = `Null` = 0)
+    pub cenc: u8,
+    /// `max_number_of_parity_symbols` of `get_oti_for_file(file)` (0 when there is no OTI)
+    pub oti_parity: u32,
+    /// scheme-specific part of that OTI: kind 0 = Reed-Solomon GF(2^m) `(m, g, 0)`, 1 = RaptorQ `(Z, N, Al)`,
+    /// 2 = Raptor `(Z, N, Al)`
+    pub oti_ss: Option<(u8, u32, u32, u32)>,
 }
 
 /// What `common::fdtinstance::FdtInstance::parse` made of an XML document
@@ -200,12 +209,26 @@ pub fn fdt_parse_summary(xml: &[u8]) -> Option<FdtSummary> {
                     Some(CacheControlChoice::MaxStale(_)) => (2, 0),
                     Some(CacheControlChoice::Expires(t)) => (3, *t),
                 };
+                let file_oti = inst.get_oti_for_file(f);
+                let oti_ss = file_oti.as_ref().and_then(|o| o.scheme_specific.as_ref()).map(|ss| match ss {
+                    oti::SchemeSpecific::ReedSolomon(x) => (0u8, x.m as u32, x.g as u32, 0u32),
+                    oti::SchemeSpecific::RaptorQ(x) => (1, x.source_blocks_length as u32, x.sub_blocks_length as u32, x.symbol_alignment as u32),
+                    oti::SchemeSpecific::Raptor(x) => (2, x.source_blocks_length as u32, x.sub_blocks_length as u32, x.symbol_alignment as u32),
+                });
+                let cenc: lct::Cenc = match &f.content_encoding {
+                    Some(s) => s.as_str().try_into().unwrap_or(lct::Cenc::Null),
+                    None => lct::Cenc::Null,
+                };
                 FdtFileSummary {
                     toi: f.toi.clone(),
                     cache_control,
                     cache_expires,
                     transfer_length: f.get_transfer_length(),
-                    oti: inst.get_oti_for_file(f).map(|o| {
+                    content_length: f.content_length,
+                    cenc: cenc as u8,
+                    oti_parity: file_oti.as_ref().map(|o| o.max_number_of_parity_symbols).unwrap_or(0),
+                    oti_ss,
+                    oti: file_oti.as_ref().map(|o| {
                         (
                             o.fec_encoding_id as u8,
                             o.encoding_symbol_length,
